@@ -306,15 +306,29 @@ def install():
     return PositionGrid
 
 
-def oracle_selftest(e, rng):
-    """qhull-based face areas against qhull-free clipping on a few faces (harness self-test)"""
-    keys = [k for k in e["face"] if k[0] < k[1] and k[0] < e["n"] and not e["open"][k[0]] and not e["open"][k[1]]]
+def oracle_selftest(e, rng, pg=None):
+    """qhull-based face areas against qhull-free clipping on a few faces (harness self-test). Where the two oracles disagree the monitors
+    arbitrate by clipping anyway; the run is only inconclusive if the repository's own value does not settle which oracle is right"""
+    keys = [k for k in e["face"] if k[0] < k[1] and k[0] < e["n"] and k[1] < e["n"] and not e["open"][k[0]] and not e["open"][k[1]]]
+    borders = None
     for k in rng.sample(keys, min(4, len(keys))):
         a = euclid.clip_face_area(e["points"], *k)
         if np.isclose(a, e["face"][k], rtol=max(1e-7, 10 * e["rtol"]), atol=1e-10 * e["face_scale"]):
             REC.ok("C06.oracle_selftest_clipping")
+            continue
+        repo = None
+        try:
+            if pg is not None:
+                borders = pg.get_borders_of_position_grid().tocsr() if borders is None else borders
+                repo = float(borders[k[0], k[1]])
+        except Exception:
+            repo = None
+        if repo is not None and np.isclose(repo, a, rtol=max(1e-7, 10 * e["rtol"]), atol=1e-10 * e["face_scale"]):
+            # qhull merged facets of a nearly degenerate point set (false alarm 13 in DESIGN section 10): clipping and the repository agree
+            REC.notes["C06 qhull oracle wrong on a sampled face, clipping and the repository agree (arbitrated, not a harness problem)"] += 1
         else:
-            REC.harness_problem("C06 oracle: qhull face area disagrees with half-plane clipping", {"pair": list(k), "qhull": e["face"][k], "clipping": a})
+            REC.harness_problem("C06 oracle: qhull face area disagrees with half-plane clipping",
+                                {"pair": list(k), "qhull": e["face"][k], "clipping": a, "repository": repo})
 
 
 FLAGS = {"True": True, "np.True_": np.True_, "1": 1, "np.bool_ from a comparison": np.array([3.0]).max() > 2, "0-d array": np.array(True)}
@@ -338,7 +352,7 @@ def drive(PositionGrid, alg, N, text, rng, flag="True"):
             REC.nontrivial_case((alg, N, text))
         if not e["surrounds"]:
             REC.classes["direction set does not surround the origin"] += 1
-        oracle_selftest(e, rng)
+        oracle_selftest(e, rng, pg)
     except Exception as ex:
         REC.crashed("C06.call_raised", ex)
 
